@@ -11,6 +11,9 @@
 (*              library, barcode lookup, UMI; addTagByTag('RQ', isPhred) -> phredToFastqHeaderSafe   *)
 (*   AsFastq    TaggedRecord.asFastq: join k:v with ';', skip doNotWrite, refuse when too long      *)
 (*   Align      the aligner copies the name into a BAM record (htslib: at most Limit characters)    *)
+(*   Digest     QueryNameFlagger.digest(reads): loop over the slots of the fragment ([R1,R2], [R1,None],  *)
+(*              [None,R2], ...): an empty slot is skipped, the first already tagged read ends the call,  *)
+(*              every other read is decoded by the next two steps                                       *)
 (*   FromName   TaggedRecord.fromTaggedBamRecord: split ';' / ':', addTagByTag(.., fqSafe)           *)
 (*   TagRead    asIlluminaHeader + tagPysamRead: MI, SM, phred tags decoded, set_tag                 *)
 (*                                                                                                *)
@@ -18,6 +21,7 @@
 (*           "impl_clamp"    D1: clamp index min(.., len(letters)) instead of len(letters)-1         *)
 (*           "impl_limit"    D3: asFastq refuses only above Limit+1                                  *)
 (*           "impl_plus"     D140: fqSafe at decode drops '+' of a dual sequencing index             *)
+(*           "none_returns"  (seeded edit) digest returns at an empty slot: [None, R2] leaves R2 undecoded *)
 (*           "drop_empty"    (seeded edit, not the pinned code) asFastq skips tags whose value is falsy: *)
 (*                           an empty sequencing index (header "... 1:N:0:") is never restored          *)
 EXTENDS Integers, Sequences, FiniteSets, TLC, Json, Util, CodecP
@@ -28,11 +32,15 @@ CONSTANTS ValChars,     \* characters library names are made of
           MaxUmi,       \* UMI length 1..MaxUmi
           Indexes,      \* subset of {"single", "dual"}: sequencing index text "G" / "G+C"
           Limit,        \* scaled-down BAM name limit (the real one is CodecP!BamLimit = 254)
+          Shapes,       \* fragment shapes handed to digest: subset of {"r", "rr", "rn", "nr"} (r = read, n = None)
           RequireSafe,  \* TRUE: inputs restricted to the statement's precondition (header-safe library names)
           Variant
 
-VARIABLES inp, pc, tags, err, name, dec, bam, qname
-vars == << inp, pc, tags, err, name, dec, bam, qname >>
+VARIABLES inp, pc, tags, err, name, dec, bam, qname,
+          frag, slot, decoded        \* the fragment (sequence of "r"/"n"), the slot digest is at, the slots decoded so far
+vars == << inp, pc, tags, err, name, dec, bam, qname, frag, slot, decoded >>
+
+FragOf(sh) == CASE sh = "r" -> <<"r">> [] sh = "rr" -> <<"r", "r">> [] sh = "rn" -> <<"r", "n">> [] sh = "nr" -> <<"n", "r">>
 
 Txt(s) == s    \* readability: constants below are code sequences
 cA == <<65>>   \* "A"
@@ -44,6 +52,7 @@ SeqsUpTo(S, n) == UNION { [1 .. m -> S] : m \in 1 .. n }
 Init == /\ inp \in [ ly : SeqsUpTo(ValChars, MaxLy), uq : SeqsUpTo(QChars, MaxUmi), idx : { IdxText(x) : x \in Indexes } ]
         /\ (RequireSafe => \A i \in DOMAIN inp.ly : HeaderSafe(inp.ly[i]))
         /\ pc = "demux" /\ tags = <<>> /\ err = "" /\ name = <<>> /\ dec = <<>> /\ bam = <<>> /\ qname = <<>>
+        /\ frag \in { FragOf(sh) : sh \in Shapes } /\ slot = 1 /\ decoded = {}
 
 (* the tags the demultiplexer would write for this input, qualities still raw *)
 RawTags == << <<"Is", <<64, 77>> >>,             \* "@M": the instrument field keeps the '@' of the FASTQ header line
@@ -65,7 +74,7 @@ Demux ==
        THEN err' = "IndexError" /\ pc' = "done" /\ UNCHANGED tags
        ELSE /\ tags' = [ i \in DOMAIN RawTags |-> IF RawTags[i][1] \in PhredTags THEN << RawTags[i][1], EncQ(RawTags[i][2]) >> ELSE RawTags[i] ]
             /\ pc' = "asfastq" /\ UNCHANGED err
-    /\ UNCHANGED << inp, name, dec, bam, qname >>
+    /\ UNCHANGED << inp, name, dec, bam, qname, frag, slot, decoded >>
 
 Bound == IF Variant = "impl_limit" THEN Limit + 1 ELSE Limit
 
@@ -75,14 +84,23 @@ AsFastq ==
        THEN err' = "refused" /\ pc' = "done" /\ UNCHANGED name      \* ValueError("The length of the demultiplexed header ...")
        ELSE name' = Header(IF Variant = "drop_empty" THEN SelectSeq(tags, LAMBDA t : Len(t[2]) > 0) ELSE tags)
             /\ pc' = "align" /\ UNCHANGED err
-    /\ UNCHANGED << inp, tags, dec, bam, qname >>
+    /\ UNCHANGED << inp, tags, dec, bam, qname, frag, slot, decoded >>
 
 Align ==
     /\ pc = "align"
     /\ IF RealLen(name) > Limit
        THEN err' = "query name too long" /\ pc' = "done"            \* htslib refuses; the pipeline breaks after demultiplexing
-       ELSE pc' = "fromname" /\ UNCHANGED err
-    /\ UNCHANGED << inp, tags, name, dec, bam, qname >>
+       ELSE pc' = "digest" /\ UNCHANGED err
+    /\ UNCHANGED << inp, tags, name, dec, bam, qname, frag, slot, decoded >>
+
+(* for read in reads: if read is None: continue; if read.has_tag('SM'): return; <decode> *)
+Digest ==
+    /\ pc = "digest"
+    /\ IF slot > Len(frag) THEN pc' = "done" /\ UNCHANGED slot
+       ELSE IF frag[slot] = "n"
+            THEN (IF Variant = "none_returns" THEN pc' = "done" /\ UNCHANGED slot ELSE slot' = slot + 1 /\ UNCHANGED pc)
+       ELSE pc' = "fromname" /\ UNCHANGED slot          \* (all mates carry the same name: one decode is modelled per read)
+    /\ UNCHANGED << inp, tags, err, name, dec, bam, qname, frag, decoded >>
 
 (* fqSafe applied by addTagByTag(key, value, isPhred=False) while decoding *)
 SafeAtDecode(c) == HeaderSafe(c) \/ (Variant # "impl_plus" /\ c = 43)
@@ -96,7 +114,7 @@ FromName ==
           THEN err' = "ValueError" /\ pc' = "done" /\ UNCHANGED dec         \* key, value = keyValue.split(':')
           ELSE /\ dec' = [ i \in DOMAIN fields |-> << KeyOf(parts(fields[i])[1][1]), FqSafe(parts(fields[i])[2]) >> ]
                /\ pc' = "tagread" /\ UNCHANGED err
-    /\ UNCHANGED << inp, tags, name, bam, qname >>
+    /\ UNCHANGED << inp, tags, name, bam, qname, frag, slot, decoded >>
 
 TagRead ==
     /\ pc = "tagread"
@@ -109,10 +127,10 @@ TagRead ==
                      ELSE IF has("LY") THEN ("SM" :> (get("LY") \o <<95, 66, 85, 76, 75>>)) @@ withMI ELSE withMI
        IN /\ bam' = [ k \in DOMAIN withSM |-> IF k \in PhredTags THEN DecQ(withSM[k]) ELSE withSM[k] ]
           /\ qname' = get("Is") \o <<58>> \o get("La") \o <<58>> \o get("CX")
-    /\ pc' = "done"
-    /\ UNCHANGED << inp, tags, err, name, dec >>
+    /\ decoded' = decoded \cup {slot} /\ slot' = slot + 1 /\ pc' = "digest"
+    /\ UNCHANGED << inp, tags, err, name, dec, frag >>
 
-Next == Demux \/ AsFastq \/ Align \/ FromName \/ TagRead
+Next == Demux \/ AsFastq \/ Align \/ Digest \/ FromName \/ TagRead
 Spec == Init /\ [][Next]_vars
 
 ---------------------------------------------------------------------------------------------------
@@ -126,14 +144,15 @@ Inv_C04_QTotal == pc = "demux" =>        \* state independent: evaluated once pe
                   /\ QCodeOK([ c \in 33 .. 126 |-> IF EncIdx(c) < NLetters THEN DecQ(<< LetterCode(EncIdx(c)) >>)[1] ELSE -1 ])
 
 (* a header that cannot be stored never leaves the demultiplexer; what leaves it can be stored *)
-Inv_C04_Refuse == /\ (pc \in {"align", "fromname", "tagread"} \/ (Done /\ err # "refused" /\ tags # <<>>)) => HeaderLen(tags) <= Limit
+Inv_C04_Refuse == /\ (pc \in {"align", "digest", "fromname", "tagread"} \/ (Done /\ err # "refused" /\ tags # <<>>)) => HeaderLen(tags) <= Limit
                   /\ err # "query name too long"
 
 (* accepted input is never lost to an exception of the codec *)
 Inv_C04_NoRaise == err \in {"", "refused"}
 
 (* everything written is recovered *)
-Inv_C04_RoundTrip == (Done /\ err = "") => RoundTripOK(RawTags, bam, qname, <<77, 58, 49, 58, 55>>)
+Inv_C04_RoundTrip == (Done /\ err = "") => /\ RoundTripOK(RawTags, bam, qname, <<77, 58, 49, 58, 55>>)
+                                           /\ decoded = { i \in DOMAIN frag : frag[i] = "r" }      \* every present read
 
 ---------------------------------------------------------------------------------------------------
 (* spec -> code: every initial state is a scenario; `over` = header length relative to the limit   *)
